@@ -336,3 +336,62 @@ func c11Kuratowski(subdiv int, quick bool) {
 
 func H_c11_kuratowski_q() { c11Kuratowski(1, true) }
 func H_c11_kuratowski_t() { c11Kuratowski(1, false) }
+
+// c11Triangulation: every spanning subgraph of a maximal planar graph on 7 vertices (a
+// triangulation: 15 = 3n-6 edges, built by stacking vertices into faces of a triangle) is
+// planar; adding any one of its 6 non-edges makes it non-planar.  Under a relabelling generator.
+func c11Triangulation() {
+	n := 7
+	adj := make([][]bool, n)
+	for i := range adj {
+		adj[i] = make([]bool, n)
+	}
+	add := func(a, b int) { adj[a][b], adj[b][a] = true, true }
+	// triangle 0,1,2; 3 inside (0,1,2); 4 inside (0,1,3); 5 inside (1,2,3); 6 inside (0,2,3)
+	add(0, 1)
+	add(1, 2)
+	add(0, 2)
+	for _, f := range [][4]int{{3, 0, 1, 2}, {4, 0, 1, 3}, {5, 1, 2, 3}, {6, 0, 2, 3}} {
+		add(f[0], f[1])
+		add(f[0], f[2])
+		add(f[0], f[3])
+	}
+	mode := rt.Choice("mode", 2)
+	want := true
+	if mode == 0 {
+		// drop a symbolic subset of the 15 edges
+		for i := 0; i < n; i++ {
+			for j := i + 1; j < n; j++ {
+				if adj[i][j] && rt.ConcreteBool(rt.Bool("drop")) {
+					adj[i][j], adj[j][i] = false, false
+				}
+			}
+		}
+	} else {
+		// add one non-edge: more than 3n-6 edges in one block
+		var ne [][2]int
+		for i := 0; i < n; i++ {
+			for j := i + 1; j < n; j++ {
+				if !adj[i][j] {
+					ne = append(ne, [2]int{i, j})
+				}
+			}
+		}
+		e := ne[rt.Choice("extra", len(ne))]
+		add(e[0], e[1])
+		want = false
+	}
+	taus := append([][]int{nil}, c09Taus(n)...)
+	tau := taus[rt.Choice("tau", len(taus))]
+	a := adj
+	if tau != nil {
+		a = vgRelabel(adj, tau)
+	}
+	got, ok := c11Call(vgDense(a), "triangulation family")
+	if ok {
+		rt.Check(got == want, "IsPlanar wrong on a subgraph / one-edge extension of a triangulation on 7 vertices")
+	}
+	rt.Reach("end")
+}
+
+func H_c11_triang7_t() { c11Triangulation() }
